@@ -191,6 +191,13 @@ func Excluded(why string) {
 	mu.Unlock()
 }
 
+// ExcludedN adds n to an exclusion counter.
+func ExcludedN(why string, n int64) {
+	mu.Lock()
+	excluded[why] += n
+	mu.Unlock()
+}
+
 // Case records one evaluated case. text is the canonical case text (used for
 // the distinctness hash); nontrivial is the property's stated rule.
 func Case(text string, nontrivial bool) {
